@@ -108,6 +108,8 @@ def run_copy(name, checks, seed, tier):
             lines = [l for l in p.stdout.splitlines() if l.startswith("  class=")]
             classes = sorted({l.split("class=")[1].split(" ")[0] for l in lines})
             verdict = {0: "missed (exit 0)", 1: "CAUGHT", 3: "inconclusive"}.get(p.returncode, "rc=%d" % p.returncode)
+            if p.returncode == 1 and "VIOLATION property=" not in p.stdout:
+                verdict = "rc=1 without a VIOLATION line (broken check?)"
             meta["checks_run"]["%s/%s/seed%s" % (c, tier, seed)] = {"verdict": verdict, "classes": classes[:6], "wall_s": round(time.time() - t0, 1), "via": "scratch worktree (VERIF_REPO)"}
             print(c, verdict, classes[:4], "%.0fs" % (time.time() - t0))
             if p.returncode not in (0, 1):
